@@ -581,6 +581,24 @@ def run_real(case):
                     obs[fmt]["generated_ok"] = _obs_dt(got[0]._generated)["f"] == GEN_FIXED[1]
             except Exception as e:
                 obs[fmt] = _err(e)
+        # JSON lines written WITHOUT descriptor lines (`?descriptors=false`, rdump --jsonlines): the reader falls back to
+        # what the line says - the record's own `_generated` timestamp is in the line and comes back as that instant
+        try:
+            url = "jsonfile://" + os.path.join(d, "nd.json") + "?descriptors=false"
+            w = RecordWriter(url)
+            try:
+                w.write(rec)
+                w.flush()
+            finally:
+                w.close()
+            rd = RecordReader("jsonfile://" + os.path.join(d, "nd.json"))
+            try:
+                got = [r for r in rd]
+            finally:
+                rd.close()
+            obs["json_nodesc_generated"] = _obs_dt(got[0]._generated)["f"] == GEN_FIXED[1] if len(got) == 1 else f"{len(got)} records"
+        except Exception as e:
+            obs["json_nodesc_generated"] = _err(e)
     finally:
         _B.set_ignored_fields_for_comparison(_saved_ignore)
         shutil.rmtree(d, ignore_errors=True)
@@ -733,6 +751,9 @@ def oracle(case, obs):
                     f"offset {off} us (instant moved by {(_instant_of(c) - (wall_us(f) - off))} us)")
     elif not (c["f"] == f and c["off"] in (off, 0)):
         return f"sub-second-offset text: constructed {c['f']} off {c['off']}, expected wall {f} off {off} or 0"
+    if obs.get("json_nodesc_generated") not in (None, True) and not isinstance(obs.get("json_nodesc_generated"), dict):
+        return ("JSON lines without descriptors: the record's _generated timestamp is not read back as the instant that was "
+                f"written ({obs['json_nodesc_generated']})")
     cf, coff = c["f"], c["off"]
     for fmt in ("binary", "json", "sqlite"):
         o = obs[fmt]
